@@ -61,7 +61,7 @@ pub struct Scenario {
     /// "missing/api.yaml" names a directory that does not exist
     #[serde(default)]
     pub target_rel: String,
-    /// -1: -q, 0: default, 1: -v, 2: -vv
+    /// -1: -q, 0: default, 1..4: -v … -vvvv
     #[serde(default)]
     pub verbosity: i8,
     /// the pre-filled target is longer than any document (a previous, larger output)
@@ -255,6 +255,12 @@ fn execute_inner(c: &Cfg, world: &World, scn: &Scenario, planted: Option<&[u8]>)
         }
         2 => {
             cmd.arg("-vv");
+        }
+        3 => {
+            cmd.arg("-vvv");
+        }
+        4 => {
+            cmd.arg("-vvvv");
         }
         _ => {}
     }
@@ -822,6 +828,7 @@ pub fn run(seed: u64, run: u64) -> Report {
         shadow_bias: 3,
         res_range: (1, 3),
         odd_spellings: wl.chance(1, 3),
+        clashing_imports: wl.chance(1, 3),
     };
     let ast = gen::generate(&mut wl, &gcfg);
     let layout = Layout {
@@ -854,7 +861,7 @@ pub fn run(seed: u64, run: u64) -> Report {
     if target_rel.starts_with("missing/") {
         probes.push("target_directory_missing".into());
     }
-    let verbosity: i8 = *wl.pick(&[0, 0, 0, -1, 1, 2]);
+    let verbosity: i8 = *wl.pick(&[0, 0, 0, -1, 1, 2, 3, 4]);
     if verbosity < 0 {
         probes.push("quiet".into());
     }
